@@ -48,13 +48,13 @@ func doNew(c []byte, cexpr, class, note string) {
 		return
 	}
 	if !sampleAll {
-		// quick tier: the Go-side oracle (cheap) sees every input; the Coq model (what costs) a
-		// deterministic 1/20 sample of them
+		// the Go-side oracle (cheap) sees every input; the Coq model (what costs) a deterministic
+		// hash sample of them: 1/20 in the quick tier, 1/8 in the thorough tier
 		h := uint32(2166136261)
 		for _, b := range c {
 			h = (h ^ uint32(b)) * 16777619
 		}
-		if h%20 != 0 {
+		if h%sampleMod != 0 {
 			seenInput[string(c)] = true
 			r := cfgx.Run(c)
 			desc := r.Desc(note)
@@ -66,8 +66,11 @@ func doNew(c []byte, cexpr, class, note string) {
 	doX(c, cexpr, class, note)
 }
 
-// sampleAll: every boundary input also becomes a Coq case (thorough tier)
+// sampleAll: every boundary input also becomes a Coq case (not used by the tiers: too slow)
 var sampleAll bool
+
+// sampleMod: 1/sampleMod of the boundary inputs are evaluated inside Coq
+var sampleMod uint32 = 20
 
 func doX(c []byte, cexpr, class, note string) *cfgx.Result {
 	seenInput[string(c)] = true
@@ -396,7 +399,9 @@ func main() {
 	out.ShardSize = 400
 	rng := vh.NewRand(fl.Seed)
 	thorough := fl.Tier == "thorough"
-	sampleAll = thorough
+	if thorough {
+		sampleMod = 8
+	}
 	tls, err := cfgx.LoadTLS(filepath.Join(filepath.Dir(fl.Out), "cfg_tls"))
 	if err != nil {
 		panic(err)
